@@ -434,8 +434,10 @@ def populate(path: str, entries: List[List[Any]]) -> None:
                 handle.write(raw_of(content))
 
 
-def read_back(path: str, before: List[List[Any]], stream: Optional[_Stream]) -> List[List[Any]]:
-    """the listing afterwards: surviving old entries in their old order, then new ones by name"""
+def read_back(path: str, before: List[List[Any]], stream: Optional[_Stream],
+              logname: Optional[str] = None) -> List[List[Any]]:
+    """the listing afterwards: surviving old entries in their old order, then new ones by name;
+    `logname`: the entry the run itself logs to (or into): its text is only known to grow"""
     old = {name: (is_dir, content) for name, is_dir, content in before}
     present = set(os.listdir(path))
     out: List[List[Any]] = []
@@ -445,11 +447,13 @@ def read_back(path: str, before: List[List[Any]], stream: Optional[_Stream]) -> 
         if os.path.isdir(full):
             inner = os.path.join(full, "kept.txt")
             intact = name not in old or (os.path.exists(inner) and open(inner, encoding="utf-8").read() == "inner"
-                                         and os.listdir(full) == ["kept.txt"])
+                                         and (os.listdir(full) == ["kept.txt"] or name == logname))
             return [name, True, [] if intact else [["raw", "<directory damaged>"]]]
         with open(full, encoding="utf-8", errors="replace") as handle:
             text = handle.read()
         prev = raw_of(old[name][1]) if name in old and not old[name][0] else None
+        if name == logname and text != (prev or "") and text.startswith(prev or ""):
+            return [name, False, ([["raw", prev]] if prev else []) + [["raw", "<log>"]]]
         return [name, False, content_tokens(text, prev)]
 
     for name, _, content in before:
@@ -458,7 +462,7 @@ def read_back(path: str, before: List[List[Any]], stream: Optional[_Stream]) -> 
             out.append([name, False, content_tokens(stream.text, raw_of(content))])
         elif name in present:
             out.append(entry(name))
-    for name in sorted(present - set(old)):
+    for name in sorted(present - set(old), key=lambda n: (n != logname, n)):   # logging creates its file first
         out.append(entry(name))
     return out
 
@@ -495,27 +499,45 @@ class C20(Property):
              ("antismash/main.py", "prepare_output_directory"),
              ("antismash/main.py", "_ignore_patterns"),
              ("antismash/main.py", "canonical_base_filename"),
-             ("antismash/main.py", "_run_antismash")]
+             ("antismash/main.py", "_run_antismash"),
+             ("antismash/main.py", "run_antismash"),
+             ("antismash/common/logs.py", "changed_logging"),
+             ("antismash/common/serialiser.py", "AntismashResults.from_file"),
+             ("antismash/main.py", "read_data"),
+             ("antismash/config/args.py", "FullPathAction")]
     RULE = ("systematic fault injection: every (record, module) position of every n x m grid (n,m <= 3 quick, "
-            "<= 4 thorough) x every fault type (to_json raises TypeError/ValueError/KeyError, value of invalid type, "
-            "object without conversion, nested failing conversion, out-of-range integer, record-level failure, "
-            "results list too short, unserialisable timings, no fault) x {write_to_file, dump_records} x handle "
-            "{existing file, missing file, open stream, None}, with bystander files; random multi-fault inputs with "
-            "None entries and nested values; prepare_output_directory on every subset of 9 entry kinds x "
-            "{fresh, reuse, .JSON, .json.bz2} x {directory, missing, plain file} x directory-name forms incl. glob "
-            "metacharacters; _run_antismash (analysis stubbed) on directory x fault-position products; "
-            "non-trivial = a fault with pre-existing target content, a non-empty existing directory, or any pipeline run")
+            "<= 4 thorough) x every fault type (to_json raises TypeError/ValueError/KeyError, raising falsy results "
+            "object, wrong-type value that is a non-empty dict / {} / [] / '' / 0 / False, object without conversion, "
+            "nested failing conversion, out-of-range integer, record-level failure, results list too short, "
+            "unserialisable timings, no fault), every other good results object falsy (__len__ == 0), x "
+            "{write_to_file, dump_records} x handle {existing file, missing file, open stream, None}, with bystander "
+            "files; random multi-fault inputs; prepare_output_directory on every subset of 10 entry kinds (incl. a "
+            "file whose name is a prefix of the log file's) x {fresh, reuse, .JSON, .json.bz2} x {directory, missing, "
+            "plain file} x directory-name forms incl. glob metacharacters; log-name family: entries whose names are "
+            "prefixes/extensions of the log file's name, directories above the log file, 5 spellings of the log path, "
+            "relative arguments and working directories, no log file with the cwd inside the directory; posixpath "
+            "model vs os.path on edge and random strings; derived names (empty --output-dir, --output-basename, "
+            "compressed / hidden / dotted inputs); reuse round trips through a real results file and the real "
+            "read_data (every position x 14 JSON values); run_antismash with the real changed_logging and the real "
+            "command-line parser (log file inside / below / outside the directory) x directory states x results; "
+            "_run_antismash on directory x fault-position products; non-trivial = a fault with pre-existing target "
+            "content, a non-empty existing directory, or any pipeline run")
     TRUSTED = ["POSIX semantics of open(path, 'w') (truncate/create) and of file objects being flushed when dropped "
                "(CPython reference counting) are taken as given",
                "orjson: serialisation order, native types, `default` protocol; only its observable verdict "
                "(bytes or TypeError) is modelled, incl. the 64-bit integer range",
-               "record-level JSON (`record_to_json`, `gather_record_areas`) is exercised but only its failure is modelled",
+               "record-level JSON (`record_to_json`, `gather_record_areas`, `record_from_json`) is exercised but only "
+               "its failure is modelled; `AntismashResults.from_file` is modelled only as 'modules come back as raw JSON'",
                "partial writes after a successful conversion (disk full, interrupted write) are outside the fault model",
-               "not generated: a target path that is a directory, dict keys that are not strings, floats, "
-               "directories named like region GenBank files, running with the cwd inside the output directory, "
-               "an empty output directory name (name derivation by canonical_base_filename is exercised, not modelled)",
-               "`_run_antismash` before `read_data` returns and the bodies of pre_process_sequences / run_detection / "
-               "annotate_records / write_outputs are stubbed in the pipeline cases"]
+               "posixpath (join/normpath/abspath/basename/splitext) is modelled and compared with the real functions; "
+               "symbolic links are not (abspath is lexical, as in the code)",
+               "logging: only the effects of changed_logging inside the output directory are modelled (directory "
+               "creation, the log file created/grown); the log text is a single opaque token",
+               "not generated: a target path that is a directory, dict keys that are not strings, floats, directories "
+               "named like region GenBank files, a log file path that is an existing directory or lies below a plain "
+               "file, an --output-basename containing '/', output directory `name/` where `name` is a plain file",
+               "`_run_antismash` before `read_data` returns (module discovery, prerequisite checks) and the bodies of "
+               "pre_process_sequences / run_detection / annotate_records / write_outputs are stubbed"]
 
     def __init__(self) -> None:
         self._tmp: Optional[tempfile.TemporaryDirectory] = None
@@ -833,6 +855,35 @@ class C20(Property):
                    "input": "base.json", "dirname": "out", "logpath": "{out}/run.log",
                    "results": {"records": [None] * n, "results": res, "timings": ["dict", []]}}
 
+    def outer_cases(self, rng: random.Random, full: bool) -> Iterator[Dict[str, Any]]:
+        """`run_antismash` itself: the real `changed_logging` creates / appends to the log file (and the
+        directories above it) before `_run_antismash` looks at the output directory"""
+        def ent(name: str, is_dir: bool) -> List[Any]:
+            return [name, is_dir, [] if is_dir else [["raw", f"content of {name}"]]]
+        good = {"records": [None], "results": [[["m0", ["mod", False, GOOD]]]], "timings": ["dict", []]}
+        bad = {"records": [None, None], "results": [[["m0", ["mod", True, GOOD]]], [["m0", ["raises", True, "ValueError"]]]],
+               "timings": ["dict", []]}
+        stale = {"records": [None], "results": [[["m0", ["mod", True, GOOD]], ["old", ["invalid", ["dict", 0]]]]],
+                 "timings": ["dict", []]}
+        targets: List[Any] = ["absent", [], [ent("run.log", False)], [ent("run.log", False), ent("input", True)],
+                              [ent("run.log", False), ent("notes.txt", False)], [ent("notes.txt", False)],
+                              [ent("run", False), ent("run.log", False)], [ent("run", True)], [ent("logs", True)],
+                              [ent("logs", True), ent("input", True)], [ent("seq.json", False), ent("base.json", False),
+                                                                        ent("r.region001.gbk", False)]]
+        logpaths = ["{out}/run.log", "{out}/./run.log", "{out}/logs/run.log", "{out}/logs/deeper/run.log",
+                    "{root}/elsewhere.log", "{root}/other/dir/elsewhere.log", ""]
+        for target in targets:
+            for logpath in logpaths:
+                for mode in ("fresh", "reuse"):
+                    for results in (good, bad, stale) if full else (good, rng.choice([bad, stale])):
+                        yield {"kind": "pipeline", "family": "outer", "outer": True, "target": target,
+                               "input": self.MODES[mode], "dirname": "out", "logpath": logpath, "results": results}
+        if full:
+            for logpath in ("out/run.log", "./out/logs/x.log"):
+                for target in targets[:6]:
+                    yield {"kind": "pipeline", "family": "outer", "outer": True, "target": target, "input": "seq.gbk",
+                           "dirname": "out", "logpath": logpath, "cwd": "{root}", "argform": "rel", "results": good}
+
     PATH_EDGE = ["", "/", "//", "///", "////a", "//a", "/a", "a", ".", "..", "./", "../", "a/..", "a/../..", "/..",
                  "//..", "/a/./b//c/../d/", "a//b", "/a/b/", ".hidden", "..x", "a.", "a.b.c", "/x.d/file", "/x/.rc",
                  "x.tar.gz", "/a/b.c/", "...", "a/.../b", "run.log", "/tmp/out/run.log", "out/run"]
@@ -891,6 +942,7 @@ class C20(Property):
         yield from self.path_cases(rng, full)
         yield from self.names_cases(rng, full)
         yield from self.reload_cases(rng, full)
+        yield from self.outer_cases(rng, full)
         yield from self.pipeline_cases(rng, full)
         self.exhaustive_done = True
         self.extra_coverage = {"grid_limit": 4 if full else 3,
@@ -1012,14 +1064,14 @@ class C20(Property):
         def __exit__(self, *args: Any) -> None:
             os.chdir(self.back)
 
-    def _observe_target(self, case: Dict[str, Any], real: str, path: str) -> Any:
+    def _observe_target(self, case: Dict[str, Any], real: str, path: str, logname: Optional[str] = None) -> Any:
         if not os.path.exists(real):
             return "absent"
         if not os.path.isdir(real):
             with open(real, encoding="utf-8") as handle:
                 return "file" if handle.read() == "a plain file" else [["<file changed>", False, []]]
         before = case["target"] if isinstance(case["target"], list) else []
-        listing = read_back(real, before, None)
+        listing = read_back(real, before, None, logname)
         for decoy in ("out1", "result", "qx") if case.get("decoys", True) else ():
             if not os.path.exists(os.path.join(path, decoy, "decoy.region001.gbk")):
                 listing.append([f"../{decoy}/decoy.region001.gbk", False, [["raw", "<deleted>"]]])
@@ -1113,16 +1165,44 @@ class C20(Property):
                 mock.patch.object(main, "annotate_records", annotate), \
                 mock.patch.object(main, "write_outputs", outputs), \
                 _Capture(rec):
-            options = self.config(logfile=paths["logfile"], output_dir=paths["name"],
-                                  output_basename=case.get("basename", ""),
-                                  reuse_results=input_path if reuse else "")
+            if case.get("outer"):
+                # the options come from the real command line parser (FullPathAction makes paths absolute)
+                from antismash.config import build_config, destroy_config, update_config
+                argv: List[str] = []
+                if paths["logfile"]:
+                    argv += ["--logfile", paths["logfile"]]
+                if paths["name"]:
+                    argv += ["--output-dir", paths["name"]]
+                if case.get("basename"):
+                    argv += ["--output-basename", case["basename"]]
+                destroy_config()
+                options = build_config(argv, isolated=True, modules=[])
+                update_config({"reuse_results": input_path if reuse else ""})
+                paths = dict(paths, name=options.output_dir, logfile=options.logfile)
+            else:
+                options = self.config(logfile=paths["logfile"], output_dir=paths["name"],
+                                      output_basename=case.get("basename", ""),
+                                      reuse_results=input_path if reuse else "")
             try:
-                main._run_antismash(None if reuse else input_path, options)  # pylint: disable=protected-access
+                if case.get("outer"):
+                    main.run_antismash(None if reuse else input_path, options)
+                else:
+                    main._run_antismash(None if reuse else input_path, options)  # pylint: disable=protected-access
             except Exception as exc:  # pylint: disable=broad-except
                 err = exn_name(exc)
                 exc = None
-        return {"trace": self._order_removes(case, rec.events), "err": err,
-                "target": self._observe_target(case, real, path),
+        logname = None
+        events = rec.events
+        if case.get("outer"):
+            # the entry of the output directory the run logs to (or into), and the trace without the logging
+            # machinery's own file traffic
+            inside = os.path.relpath(os.path.normpath(os.path.join(cwd, paths["logfile"])), real) \
+                if paths["logfile"] else ".."
+            logname = None if inside.startswith("..") or inside == "." else inside.split(os.sep)[0]
+            events = [e for e in events if not (isinstance(e, list) and e[0] in ("open", "write", "mkdir")
+                                                and (e[1].split(":")[0] == inside or "/" in e[1]))]
+        return {"trace": self._order_removes(case, events), "err": err,
+                "target": self._observe_target(case, real, path, logname),
                 "paths": dict(paths, cwd=cwd, effective=options.output_dir), **extra}
 
     # ------------------------------------------------------------------ driver + verdict
@@ -1141,6 +1221,7 @@ class C20(Property):
             line["results"] = case["results"]
             line["results_input"] = case.get("results_input", "seq.gbk")
             line["reload"] = bool(case.get("reload"))
+            line["outer"] = bool(case.get("outer"))
             if case.get("reload") and isinstance(line["target"], list) and "initial_json" in obs:
                 # the reused file holds what the first (real) write put there
                 line["target"] = [[n, d, obs["initial_json"] if n == obs["json_name"] else c]
